@@ -43,7 +43,7 @@ def cases(tier, seed, prep=None):
     b = seed * 1000003 + 1200000
     out = []
     for i in range(260 if q else 9000):
-        out.append({"kind": "codec", "seed": b + i, "frag": ["one", "aligned", "random", "all", "random"][i % 5]})
+        out.append({"kind": "codec", "seed": b + i, "frag": ["one", "aligned", "random", "all", "random"][i % 5], "relay": i % 3 == 1})
     attacks = ["wrong-prologue", "truncated-prologue", "extended-prologue", "other-role-prologue", "random-handshake",
                "other-psk", "oversized-frame", "garbage-after-handshake", "bad-relay-reply", "relay-ok-then-garbage", "record-before-kcm"]
     for i in range(176 if q else 5500):
@@ -95,10 +95,13 @@ def make_noise(psk, initiator):
     return n
 
 
-def make_record_pair(psk, psk2=None):
+def make_record_pair(psk, psk2=None, relay=False):
     tl, tf = MemTransport(), MemTransport()
     fl = _Framer(tl, connector_mod.PROLOGUE_LEADER, connector_mod.PROLOGUE_FOLLOWER)
     ff = _Framer(tf, connector_mod.PROLOGUE_FOLLOWER, connector_mod.PROLOGUE_LEADER)
+    if relay:
+        fl.use_relay(b"please relay leader\n")
+        ff.use_relay(b"please relay follower\n")
     rl = _Record(fl, make_noise(psk, True), LEADER)
     rf = _Record(ff, make_noise(psk2 or psk, False), FOLLOWER)
     rl.set_role_leader()
@@ -168,13 +171,38 @@ def feed(record, data, frag, rng):
     return out
 
 
+class _RelayDone(Exception):
+    pass
+
+
 def run_codec(spec):
     rng = random.Random(spec["seed"])
     psk = rng.randbytes(32)
-    (rl, tl), (rf, tf) = make_record_pair(psk)
+    relay = bool(spec.get("relay"))
+    (rl, tl), (rf, tf) = make_record_pair(psk, relay=relay)
     viol = []
     frag = spec["frag"]
     try:
+        if relay:
+            # both sides talk through a transit relay: each sent its relay handshake and gets `ok\n`; the Leader's
+            # `ok` arrives together with the Follower's prologue (the Follower was answered first)
+            tl.buf.clear()
+            tf.buf.clear()
+            feed(rf, b"ok\n", "all", rng)                # follower: ok -> sends its prologue
+            fol_prologue = bytes(tf.buf)
+            tf.buf.clear()
+            toks_l0 = feed(rl, b"ok\n" + fol_prologue, frag, rng)    # leader: ok + prologue in this fragmentation
+            tf.buf += b""                                  # (nothing more from the follower yet)
+            # the leader has now sent prologue + handshake; hand them to the follower
+            toks_f = feed(rf, bytes(tl.buf), frag, rng)
+            tl.buf.clear()
+            toks_l = toks_l0 + feed(rl, bytes(tf.buf), frag, rng)
+            tf.buf.clear()
+            if [type(t) for t in toks_f] != [Handshake] or [type(t) for t in toks_l] != [Handshake]:
+                return {"violations": [{"key": "C12/codec/relay-handshake-stalled",
+                                        "msg": "through a relay, frag=%s: leader tokens %r follower tokens %r (one Handshake each expected)" % (frag, toks_l, toks_f),
+                                        "witness": {"spec": spec}}], "nontrivial": None, "counters": {}}
+            raise _RelayDone()
         toks_f = feed(rf, bytes(tl.buf), frag, rng)      # follower reads the leader's prologue
         tl.buf.clear()
         toks_l = feed(rl, bytes(tf.buf), frag, rng)      # leader reads prologue -> sends handshake
@@ -183,6 +211,8 @@ def run_codec(spec):
         tl.buf.clear()
         toks_l += feed(rl, bytes(tf.buf), frag, rng)
         tf.buf.clear()
+    except _RelayDone:
+        pass
     except Exception as e:
         # an honest, correctly keyed peer whose prologue/handshake merely arrives in pieces
         return {"violations": [{"key": "C12/codec/honest-prologue-or-handshake-rejected/" + type(e).__name__,
@@ -216,7 +246,7 @@ def run_codec(spec):
             if len(sample) < 3:
                 sample.append([_short(r) for r in recs[:4]])
     return {"violations": viol, "nontrivial": ["codec", spec["seed"], frag] if total else None,
-            "counters": {"records_roundtripped": total, "frag_" + frag: 1},
+            "counters": {"records_roundtripped": total, "frag_" + frag: 1, "codec_through_relay": int(relay)},
             "sample": {"kind": "codec", "frag": frag, "records": sample}}
 
 
